@@ -138,6 +138,35 @@ theorem abscurv_geometric (sqrt : α → α) (hs : SqrtSpec sqrt) (xy : List (α
 
 end field
 
+section rounded
+variable [Add α] [Sub α] [Mul α] [OfNat α 0] [Preorder α]
+
+/-- T1, "never decreases", WITHOUT exact arithmetic. Let the scalars carry any preorder, and assume only
+* `0 ≤ sqrt x` for every `x`, and
+* `a ≤ a + d` whenever `0 ≤ d` (adding a non-negative number does not decrease — true of every correctly rounded
+  floating-point addition, because rounding is monotone and `a` is representable).
+Then the abscissa `s = absc` never decreases: `i ≤ j → s i ≤ s j`. No commutativity, associativity or exactness of
+`+`, `-`, `*`, `sqrt` is used, so the statement applies to IEEE doubles with the operations in Python's order (the two
+assumptions are facts about IEEE-754, taken as hypotheses here). -/
+theorem abscurv_monotone_rounded (sqrt : α → α) (hsqrt : ∀ x, 0 ≤ sqrt x) (hadd : ∀ a d : α, 0 ≤ d → a ≤ a + d)
+    (xy : List (α × α)) : ∀ i j, i ≤ j → absc sqrt xy i ≤ absc sqrt xy j := by
+  have step : ∀ i, absc sqrt xy i ≤ absc sqrt xy (i + 1) := by
+    intro i
+    show absc sqrt xy i ≤ absc sqrt xy i + _
+    apply hadd
+    cases xy[i + 1]? with
+    | none => exact le_refl _
+    | some p =>
+      cases xy[i]? with
+      | none => exact le_refl _
+      | some q => exact hsqrt _
+  intro i j hij
+  induction hij with
+  | refl => exact le_refl _
+  | step _ ih => exact le_trans ih (step _)
+
+end rounded
+
 /-! ## on the feature table -/
 
 section table
@@ -318,6 +347,23 @@ theorem positions_and_stamps_unchanged {V : Type} [AbsTime V] (g : GOps V) (op :
 
 end representations
 
+section otherEntry
+open TV.Features TV.CinTab
+variable [Field α] [LinearOrder α] [IsStrictOrderedRing α]
+variable {σ : Type} [Tbl σ (Option α)]
+variable {I : σ → Prop} {n : σ → Nat} {rd : σ → String → Option (List (Option α))} {co : σ → Coord → List (Option α)}
+
+/-- Another entry point of "the planimetric length of the track": `computeCurvAbsBetweenTwoPoints(track)` on a lawful
+table holding `≥ 1` fixes at the finite positions `xy` only reads, and (in exact arithmetic: it subtracts the
+coordinates in the other order than `ds`) returns `absc (n-1)` — the value `abs_curv` ends at, the sum of the legs
+(`abscurv_geometric`). -/
+theorem curvabs_table (L : Laws I n rd co) (sqrt : α → α) (ofNat : Nat → α) (isNaN : α → Bool) (xy : List (α × α)) (s : σ)
+    (hI : I s) (hn : n s = xy.length) (hpos : 0 < xy.length) (hx : co s .x = xsOf xy) (hy : co s .y = ysOf xy) :
+    (curvAbsT (optG sqrt ofNat isNaN) : M σ _) s = (.ok (some (absc sqrt xy (xy.length - 1))), s) := by
+  rw [curvAbsT_read L (optG sqrt ofNat isNaN) s hI, hx, hy, hn, curvF_absc sqrt ofNat isNaN xy _ (by omega)]
+
+end otherEntry
+
 /-! ### non-vacuity -/
 
 /-- the square-root contract is inhabited (by `Real.sqrt`) -/
@@ -337,6 +383,12 @@ example : (estimateSpeed (fun x => if x = 25 then 5 else if x = 100 then 10 else
 example : (estimateSpeed (fun x => if x = 25 then 5 else 0)
     ({ xy := [(0, 0), (3, 4)], ts := [7, 7], feats := [] } : Track Rat)).2 = some [none, none] := by
   decide +kernel
+
+/-- the hypotheses of `abscurv_monotone_rounded` are satisfiable by an arithmetic whose square root is NOT exact: the
+integers with the floor square root -/
+example : (∀ x : Int, 0 ≤ ((Nat.sqrt x.toNat : Nat) : Int)) ∧ (∀ a d : Int, 0 ≤ d → a ≤ a + d) :=
+  ⟨fun _ => Int.natCast_nonneg _, fun a d h => by omega⟩
+example : absc (fun x : Int => ((Nat.sqrt x.toNat : Nat) : Int)) [(0, 0), (1, 1), (3, 2), (3, 2)] 3 = 3 := by decide +kernel
 
 /-! ### non-vacuity of the table theorems: a world whose observations are shared -/
 section demoWorld
